@@ -152,6 +152,9 @@ func (sc *SignCase) config(root string, captured *[][]byte) (*nfpm.Config, error
 	if sc.Fault == "missing-key-file" {
 		kf = filepath.Join(root, "no-such-key-file")
 	}
+	if sc.Fault == "non-rsa-key" {
+		kf = filepath.Join(keysDir(), "ecdsa-p256.pkcs8.pem") // apk signatures are RSA: an ECDSA key cannot make one
+	}
 	if !sc.Callback {
 		sig["key_file"] = kf
 	}
@@ -160,6 +163,9 @@ func (sc *SignCase) config(root string, captured *[][]byte) (*nfpm.Config, error
 	}
 	if sc.Fault == "bad-key-id" {
 		sig["key_id"] = "not-hex!"
+	}
+	if sc.Fault == "unknown-key-id" {
+		sig["key_id"] = "0123456789abcdef" // well formed, but no key of the key file has it
 	}
 	block := map[string]any{"signature": sig}
 	switch sc.Format {
@@ -466,6 +472,12 @@ func checkSign(sc *SignCase, useGPG bool) []Violation {
 				if _, err := blk.VerifySignature(pubRing(key), nil); err != nil {
 					vs.add("C10.dpkg-sig.signature-invalid", f, "clear-signed manifest does not verify: %v", err)
 				}
+				if blk2, _ := clearsign.Decode(d.SigMember.Data); blk2 != nil && blk2.ArmoredSignature != nil {
+					// the documented key selection (key_id, else the first signing subkey) holds for either method
+					if sigBytes, err := io.ReadAll(blk2.ArmoredSignature.Body); err == nil {
+						sc.checkIssuer(f, sigBytes, &vs)
+					}
+				}
 				if len(captured) > 0 && clearNorm(captured[0]) != clearNorm(blk.Plaintext) {
 					vs.add("C10.callback.bytes", f, "the callback was handed %d bytes that are not the manifest that was stored", len(captured[0]))
 				}
@@ -636,11 +648,14 @@ func genSignCase(t *rapid.T) *SignCase {
 			faults = []string{"callback-error"}
 		} else {
 			faults = []string{"missing-key-file"}
+			if sc.Format == "apk" && !sc.protected() {
+				faults = append(faults, "non-rsa-key")
+			}
 			if sc.protected() {
 				faults = append(faults, "wrong-passphrase", "missing-passphrase")
 			}
 			if sc.Format != "apk" {
-				faults = append(faults, "bad-key-id")
+				faults = append(faults, "bad-key-id", "unknown-key-id")
 			}
 		}
 		if sc.Format == "deb" && sc.DebMethod != "dpkg-sig" {
